@@ -309,6 +309,15 @@ class Groupings(Family):
             for inner_ordered in (False, True):
                 for perm in itertools.permutations(range(6)):
                     yield (grouping, False, inner_ordered, perm)
+        # ordered outer grader with a SINGLE nested ListGrader subgrader (one object grades every group), groups of >= 2 boxes
+        for grouping in ((1, 1, 2, 2), (1, 1, 2, 2, 2), (1, 1, 1, 2, 2), (2, 2, 1, 1, 1), (1, 1, 2, 2, 3, 3, 3)):
+            if tier == 'quick' and len(grouping) > 5:
+                continue
+            for inner_ordered in (False, True):
+                for perm in itertools.permutations(range(len(grouping))):
+                    if len(grouping) > 5 and perm[0] > 1:
+                        continue
+                    yield (grouping, 'single', inner_ordered, perm)
         for length in range(2, maxlen + 1):
             for grouping in surjections(length, length):
                 sizes = [grouping.count(g) for g in range(1, max(grouping) + 1)]
@@ -335,7 +344,10 @@ class Groupings(Family):
         answers = []
         for m in members:
             answers.append(answers_atoms[m[0]] if len(m) == 1 else [answers_atoms[p] for p in m])
-        if outer_ordered:
+        if outer_ordered == 'single':
+            g = ListGrader(answers=answers, subgraders=ListGrader(subgraders=leaf(), ordered=inner_ordered), ordered=True,
+                           grouping=list(grouping))
+        elif outer_ordered:
             subs = [leaf() if len(m) == 1 else ListGrader(subgraders=leaf(), ordered=inner_ordered) for m in members]
             g = ListGrader(answers=answers, subgraders=subs, ordered=True, grouping=list(grouping))
         else:
